@@ -565,9 +565,12 @@ class InstanceWriteProvider(BaseProvider):
                                                  target_namespace)
         assert self.is_association(creation_class)
 
-        ref_namespaces = set()
+        ref_namespaces = {}  # key: lower-cased namespace name
         for inst_prop in cim_object.properties.values():
             if inst_prop.type == 'reference':
+                if inst_prop.value is None:
+                    # NULL reference, does not define a namespace
+                    continue
                 refprop_namespace = inst_prop.value.namespace
                 assert refprop_namespace is not None, \
                     _format("Invalid namespace value None found in reference "
@@ -575,11 +578,13 @@ class InstanceWriteProvider(BaseProvider):
 
                 # Add to list if namespace exists and not same as
                 # target_namespace
+                # Note: CIM namespace names are case insensitive
                 if refprop_namespace:
-                    if refprop_namespace != target_namespace:
-                        ref_namespaces.add(inst_prop.value.namespace)
+                    if refprop_namespace.lower() != target_namespace.lower():
+                        ref_namespaces.setdefault(
+                            refprop_namespace.lower(), refprop_namespace)
 
-        return list(ref_namespaces)
+        return list(ref_namespaces.values())
 
     def get_required_class(self, instance, namespace):
         """
